@@ -14,10 +14,10 @@ from trace import Group, first_diff, group_blocks
 
 
 def _impl_groups(case: SchedCase) -> list[Group]:
-    os.environ['TZ'] = 'UTC'
+    os.environ['TZ'] = case.tz
     time.tzset()
     from sched_impl import SchedImpl
-    blocks = SchedImpl(case.executor, case.epoch_ns, case.specs, case.seed).run(case.lines)
+    blocks = SchedImpl(case.executor, case.epoch_ns, case.specs, case.seed, case.tz).run(case.lines)
     return group_blocks(case.lines, blocks)
 
 
@@ -31,7 +31,7 @@ def _impl_worker(args):
 
 
 def case_to_json(case: SchedCase) -> dict:
-    return {'component': 'sched', 'seed': case.seed, 'executor': case.executor, 'epoch_ns': case.epoch_ns,
+    return {'component': 'sched', 'seed': case.seed, 'executor': case.executor, 'epoch_ns': case.epoch_ns, 'tz': case.tz,
             'lines': case.lines, 'specs': {str(k): v for k, v in case.specs.items()}}
 
 
@@ -52,7 +52,7 @@ def _spec_from_json(x):
 
 def case_from_json(d: dict) -> SchedCase:
     specs = {int(k): _spec_from_json(v) for k, v in d.get('specs', {}).items()}
-    return SchedCase(d['seed'], d['executor'], d['epoch_ns'], list(d['lines']), specs, {})
+    return SchedCase(d['seed'], d['executor'], d['epoch_ns'], list(d['lines']), specs, {}, d.get('tz', 'UTC'))
 
 
 # ----------------------------------------------------------------------------------------------- projections
@@ -79,11 +79,11 @@ def proj(pid: str):
 
 GEN_KW = {
     'C01': {},
-    'C02': {},
-    'C07': {},
-    'C08': {'kinds': ('once', 'countdown', 'countdown')},
-    'C09': {'max_jobs': 9},
-    'C10': {},
+    'C02': {'focus': 'C02'},
+    'C07': {'focus': 'C07'},
+    'C08': {'focus': 'C08', 'kinds': ('once', 'countdown', 'countdown', 'countdown', 'at')},
+    'C09': {'focus': 'C09', 'max_jobs': 9},
+    'C10': {'focus': 'C10'},
 }
 
 
@@ -99,7 +99,7 @@ def strip_failures(case: SchedCase) -> SchedCase:
             t[-2] = '-'
             ln = ' '.join(t)
         lines.append(ln)
-    return SchedCase(case.seed, case.executor, case.epoch_ns, lines, case.specs, case.meta)
+    return SchedCase(case.seed, case.executor, case.epoch_ns, lines, case.specs, case.meta, case.tz)
 
 
 class SchedProp:
@@ -174,7 +174,7 @@ class SchedProp:
                     {**case_to_json(case), 'broken': 'correspondence sched/' + self.pid, 'group': d}))
 
     def run_T(self, run: Run) -> None:
-        n = {'quick': 250, 'thorough': 12000}[run.tier]
+        n = {'quick': 400, 'thorough': 16000}[run.tier]
         run.rule = ('seeded random scheduler histories (creations of once/countdown/at jobs with interval, group, '
                     'offset and jitter triggers, control operations, callback (de)registration, enable/disable, '
                     'sleep / blocked-loop advances on a 250 ms grid, injected failures); a case is non-trivial when '
@@ -229,10 +229,12 @@ class SchedProp:
             case = case_from_json(f.replay)
             lines = list(case.lines)
 
+            kind0 = ' '.join(f.desc.split(':', 1)[-1].split()[:3])
+
             def fails(ls):
-                c = SchedCase(case.seed, case.executor, case.epoch_ns, ls, case.specs, {})
+                c = SchedCase(case.seed, case.executor, case.epoch_ns, ls, case.specs, {}, case.tz)
                 try:
-                    return bool(self.oracle(c, _impl_groups(c)))
+                    return any(kind0 in m for m in self.oracle(c, _impl_groups(c)))
                 except BaseException:  # noqa: BLE001
                     return False
             chunk = max(1, len(lines) // 2)
@@ -247,7 +249,7 @@ class SchedProp:
                     else:
                         i += chunk
                 chunk //= 2
-            c = SchedCase(case.seed, case.executor, case.epoch_ns, lines, case.specs, {})
+            c = SchedCase(case.seed, case.executor, case.epoch_ns, lines, case.specs, {}, case.tz)
             f.replay = {**case_to_json(c), 'shrunk_from': len(case.lines)}
             msgs = self.oracle(c, _impl_groups(c))
             if msgs:
